@@ -111,6 +111,17 @@ class C10(Prop):
                         ctx.fail("no-token", "%s: non-final answer without token" % label, case)
                     if calls > n + 2:
                         ctx.fail("endless", "%s: %d calls for %d link-bearing source pages and still not done (token %r)" % (label, calls, n, tok), case)
+                if k == 1 and calls >= 2:
+                    # a token fed back WITHOUT a count ("everything that is left"): first answer with k=1, then the rest at once
+                    r1 = case.call("paginate_webentity_pagelinks", t.paginate_webentity_pagelinks, w, ob.args(order),
+                                   include_internal=ii, include_outbound=io, source_page_count=1, _passthrough=(RecursionError,))
+                    r2 = case.call("paginate_webentity_pagelinks (token, no count)", t.paginate_webentity_pagelinks, w,
+                                   ob.args(order), include_internal=ii, include_outbound=io, source_page_count=None,
+                                   pagination_token=r1.get("token"), _passthrough=(RecursionError,))
+                    both = Counter((bytes(a_), bytes(b_), c_) for a_, b_, c_ in list(r1["pagelinks"]) + list(r2["pagelinks"]))
+                    if not r2["done"] or both != ref:
+                        ctx.fail("resume-without-count", "internal=%r outbound=%r: first answer (k=1) + resume with the token and no count: done=%r, too often %r, missing %r"
+                                 % (ii, io, r2["done"], sorted((both - ref).items())[:3], sorted((ref - both).items())[:3]), case)
                 if got != ref:
                     ctx.fail("links", "internal=%r outbound=%r k=%d prefixes %r: paging returns %r too often / not in the unpaginated answer, misses %r"
                              % (ii, io, k, order[:3], sorted((got - ref).items())[:3], sorted((ref - got).items())[:3]), case)
